@@ -31,6 +31,9 @@ CLAIMS = {
  "C12": dict(ref="§4 C12",
    text="Proof for every well-formed region state (symbolic sets, cache filled or not, depth 1..3/4): _uniq lists 4*4^d+p for all levels 1..maxdepth (encoding injective across levels), write_fits stores that list as int64 column NPIX in extension 1 with MOCORDER=maxdepth, ORDERING=NUNIQ; write_reg prints exactly one polygon per stored pixel built from healpy.boundaries(2**d, p, step=1, nest=True) with (ra/15, dec) per corner (set-loop invariant on the output multiset); save dumps the whole object and load returns it.",
    note="bounded in depth; astropy fits writer, healpy.boundaries, SkyCoord formatting, pickle, sorted/map contracts assumed"),
+ "C14": dict(ref="§4 C14",
+   text="Proof at an arbitrary pixel of an arbitrary-shape image (1 and 2 symbolic sources): make_model calls sky2pix_ellipse once per source with (ra,dec), a/3600, b/3600, pa; sources centred off the image are skipped and nothing raises; each remaining source writes exactly its box (integer box of half-width 5(|sx cos|+|sy sin|), floor/ceil outwards, clipped to the image) with previous value + G(i,j; peak, X-1, Y-1, sx*FWHM2CC, sy*FWHM2CC, theta), G being fitting.elliptical_gaussian's own body (so the model is the sum of the catalogue Gaussians and is additive); mask mode blanks exactly the box pixels with G >= frac*peak (or sigma*local_rms); FWHM2CC*2sqrt(2ln2)=1; make_residual writes data -/+ model and the model; (d+m)-m=d.",
+   note="sky2pix_ellipse by its C16 contract; numpy mgrid/fancy-index/where contracts; number of sources enumerated (1, 2); 5-sigma extent and numeric tolerances cross-checked natively only"),
  "C15": dict(ref="§4 C15",
    text="Proof for all shapes>=2 and factors>=1 (CDELT or CD headers): compress stores the decimation rows/cols and the documented header; expand∘compress never violates a RegularGridInterpolator precondition, restores shape, CRPIX, CDELT/CD, removes BN_*, and places every stored row k<nx at its true original row k*f (⇒ exact at nodes, complete cells interpolated between true corners); invalid factor ⇒ None; uncompressed input returned unchanged.",
    note="RegularGridInterpolator exactness/range/bilinearity, numpy slicing algebra, astropy header mapping assumed; float32 cast not modelled; floats as reals"),
